@@ -25,10 +25,7 @@ def reshape(self, shape, recursive=True):
     if shape == self._shape_:
         return self
 
-    if shape:
-        new_values = np.asarray(self._values_).reshape(shape + self.item)
-    else:
-        new_values = np.asarray(self._values_).ravel()[0]
+    new_values = np.asarray(self._values_).reshape(shape + self.item)
 
     if np.isscalar(self._mask_):
         new_mask = self._mask_
